@@ -122,6 +122,28 @@ theorem Bay.Writes.safe {ok : Nat → Prop} {b b1 : Bay} (wf : b.WF) (sf : b.Saf
   · intro mi m hm; exact hsel mi m (h3 ▸ hm)
   · intro mi m mj m' hm hm'; exact sf.selRaw mi m mj m' (h3 ▸ hm) (h3 ▸ hm')
 
+/-- `bay_propagate` never changes the callback list of a channel that is no
+    mux's input (only `cb_input` callbacks are enabled / disabled). -/
+theorem Bay.propagate_cbs_noninput {b bF : Bay} {em : List (Nat × Value)} (wf : b.WF)
+    (h : b.propagate = .ok (bF, em)) (s : Nat)
+    (hs : ∀ (mi : Nat) (m : Mux) (i : Nat), b.muxes[mi]? = some m → m.inputs[i]? ≠ some (some s)) :
+    bF.cbsOf s = b.cbsOf s := by
+  obtain ⟨b1, b2, h1, h2, rfl, _⟩ := Bay.propagate_ok h
+  let P : Bay → Nat → Prop := fun b' _ => b'.muxes = b.muxes ∧ b'.cbsOf s = b.cbsOf s
+  have hstep : ∀ (b2 : Bay) (k c : Nat) (b3 : Bay), b2.WF → P b2 k → b2.dirty[k]? = some c →
+      b2.propChan (b2.chanFuel c) c 0 = .ok b3 → P b3 (k + 1) := by
+    intro b2 k c b3 wf2 hp _ hrun
+    exact (Bay.propChan_rule c (fun b4 _ => P b4 0)
+      (by
+        intro b4 j cb b5 wf4 ⟨q1, q2⟩ _ hrun4 _
+        obtain ⟨m', hm', hmux, _, _, _, _, hfix, _⟩ := Bay.runCb_frame wf4 hrun4
+        refine ⟨hmux.trans q1, ?_⟩
+        rw [hfix s (fun i => hs _ m' i (q1 ▸ hm')), q2])
+      _ b2 0 b3 wf2 hp (Nat.zero_le _) hrun).2.2
+  obtain ⟨wf1, _, p2⟩ := Bay.dirtyPhase_rule P hstep _ b 0 b1 wf ⟨rfl, rfl⟩ (Nat.zero_le _) h1
+  obtain ⟨_, _, _, hcbs, _, _⟩ := Bay.flush_result wf1 h2
+  rw [hcbs]; exact p2
+
 /-! ### a mux none of whose callbacks can run -/
 
 /-- Mux `mi` is idle: its select channel is not dirty and none of its input
